@@ -13,13 +13,20 @@ def stream_grad_model(chk, i, rng):
     obj, ovo = gemlib.obj_of(g)
     n = int(rng.integers(1, 9 if (obj in ("mmd", "ws") and ovo) else 12))
     K = int(rng.integers(2, 6)) if rng.integers(0, 10) else 1   # one case in ten: a single cluster
-    mode = rng.choice(["soft", "mid", "sharp", "saturated", "clipped"])
+    mode = rng.choice(["soft", "mid", "sharp", "saturated", "clipped"] + (["clipped", "saturated"] if obj in ("ws", "mmd") else []))
     P = gemlib.gen_P(rng, n, K, "sharp" if mode == "clipped" else mode)
     if mode == "clipped":
         # put some entries exactly at / beyond the clip bounds (still a legal prediction matrix up to rounding)
         for _ in range(int(rng.integers(1, 4))):
             r, c = int(rng.integers(0, n)), int(rng.integers(0, K))
             P[r, c] = rng.choice([0.0, g.epsilon, g.epsilon / 2, 1.0, 1 - g.epsilon])
+        if K >= 2 and rng.integers(0, 2):
+            # an empty cluster: a whole column at or below the clip bound (its proportion is then of the order of epsilon,
+            # which is where a gradient that reads the unclipped predictions differs from the derivative of the score)
+            c = int(rng.integers(0, K))
+            P[:, c] = rng.choice([0.0, g.epsilon / 2])
+            P /= np.maximum(P.sum(1, keepdims=True), 1e-300)
+            P[np.isnan(P)] = 1.0 / K
     A, akind = None, "none"
     if obj == "mmd":
         A, akind = gemlib.gen_affinity(rng, n, "kernel")
